@@ -5,7 +5,7 @@ export CARGO_NET_OFFLINE=true
 rm -rf $W; mkdir -p /tmp/confirm; git -C /repo worktree prune; git -C /repo worktree add --detach $W HEAD >/dev/null 2>&1 || exit 9
 cd $W
 cp $SRC/demo_$V.rs tests/demo_seed.rs
-export CARGO_TARGET_DIR=/tmp/confirm/target
+export CARGO_TARGET_DIR=${CONFIRM_TARGET:-/tmp/confirm/target}
 r_clean=$(cargo test --offline --test demo_seed 2>&1 | grep -E '^test result' | tail -1)
 git apply $SRC/$V.diff 2>/dev/null || git apply -3 $SRC/$V.diff >/dev/null 2>&1 || { echo "$ID$V: patch does not apply"; cd /; git -C /repo worktree remove --force $W; exit 9; }
 git reset -q
